@@ -349,8 +349,24 @@ func c16Late(t *testing.T, in c16Input) Record {
 		}()
 		synctest.Wait()
 		held = g.entered.Load()
+		// B runs in its own goroutine: an implementation in which the held caller already owns the flight
+		// would make B join it and wait for the gate; that must become an observation (class 8), not a
+		// deadlocked harness
+		doneB := make(chan struct{})
+		blockedB := false
 		if in.EP2 != 0 {
-			clsB, tokB = class(c16Call(ctx, st, in.EP2, "x"))
+			go func() {
+				defer close(doneB)
+				clsB, tokB = class(c16Call(ctx, st, in.EP2, "x"))
+			}()
+			synctest.Wait()
+			select {
+			case <-doneB:
+			default:
+				blockedB = true
+			}
+		} else {
+			close(doneB)
 		}
 		if in.Change {
 			svc.mu.Lock()
@@ -364,6 +380,10 @@ func c16Late(t *testing.T, in c16Input) Record {
 		second = fmt.Sprintf("(Some (%d, %d))", sv.ver, sv.tok)
 		close(g.gate)
 		<-done
+		<-doneB
+		if blockedB {
+			clsB = 8 // the overtaker could not complete while the other caller was held
+		}
 		svc.mu.Lock()
 		nreqA = svc.nget - before
 		svc.mu.Unlock()
